@@ -93,9 +93,14 @@ pub enum Details {
     SignExtend { requested: usize, needed: usize },
     IllegalSingleObjectWriterState,
     Validation,
+    EncodeValueAsSchemaError { value_kind: ValueKind, supported_schema: Vec<SchemaKind> },
+    EncodeDecimalAsFixedError(usize, usize),
+    ConvertFixedToUuid(usize),
     Other,
 }
 pub struct Utf8Error { pub u: () }
+pub enum ValueKind { Null, Boolean, Int, Long, Float, Double, Bytes, String, Fixed, Enum, Union, Array, Map, Record, Date, Decimal, BigDecimal, TimeMillis, TimeMicros, TimestampMillis, TimestampMicros, TimestampNanos, LocalTimestampMillis, LocalTimestampMicros, LocalTimestampNanos, Duration, Uuid }
+pub enum SchemaKind { Null, Boolean, Int, Long, Float, Double, Bytes, String, Array, Map, Union, Record, Enum, Fixed, Decimal, BigDecimal, Uuid, Date, TimeMillis, TimeMicros, TimestampMillis, TimestampMicros, TimestampNanos, LocalTimestampMillis, LocalTimestampMicros, LocalTimestampNanos, Duration, Ref }
 pub struct Error { pub details: Box<Details> }
 pub type AvroResult<T> = Result<T, Error>;
 impl vstd::std_specs::convert::FromSpecImpl<Details> for Error {
@@ -126,3 +131,4 @@ pub assume_specification[u64::from_le](x: u64) -> (r: u64) ensures r == x;
 // A6: std integer helpers without a vstd specification (doc contract of core::num)
 pub assume_specification[<i64>::checked_neg](x: i64) -> (r: Option<i64>)
     ensures r == (if x == i64::MIN { None::<i64> } else { Some((-x) as i64) });
+pub assume_specification[<u8 as From<bool>>::from](b: bool) -> (r: u8) ensures r == (if b { 1u8 } else { 0u8 });
